@@ -1420,6 +1420,9 @@ def run(out, ctx):
         "differences of the Coq-evaluated objective; matrix calculus with log det is out of reach, DESIGN 9.3)",
         "agreement of torch/linear_operator Cholesky numerics with exact algebra",
         "values of the prior log-densities and of the constraint transforms (decided by C17; recomputed here with mpmath)",
+        "transparency of plain torch containers for named_priors / named_constraints / named_hyperparameters (proved for the added-loss "
+        "traversal, c02_added_terms_container_transparent; the other traversals are compared exactly on the container / sgpr / samename / shared families)",
+        "the value of the SGPR trace term (computed densely by the harness from the base kernel, float64)",
         "completeness of named_priors when modules are shared (every registration of the first occurrence is yielded): "
         "proved for sharing-free trees, never-twice proved for all trees, the shared-handle family is compared exactly"]
 
